@@ -289,3 +289,26 @@ Example C09_nonvacuous_product :
   ptrace_spec Z 0%Z Z.add [2; 3] [true; false] (kron_list Z 1%Z Z.mul [A; B] [2; 3]) 1 0 = 36%Z /\
   tr_list Z 0%Z 1%Z Z.add Z.mul [B] [3] = 18%Z /\ A 1 0 = 2%Z.
 Proof. vm_compute. repeat split; reflexivity. Qed.
+
+(* 19. reshuffle, tensor of superoperators -> superoperator of the tensor
+       space (_to_super_of_tensor): for ANY number of factors, each over a
+       space with any number of subsystems, the permutation it builds brings
+       the row ("to") labels of all factors, in factor order, in front of the
+       column ("from") labels of all factors.  ls/rs are the row/column labels
+       of the factors as laid out in the flat dims of the tensor of supers
+       (rows of a factor first, then its columns). *)
+Theorem C09_reshuffle_groups_row_and_column_indices :
+  forall ls rs : list (list nat),
+    Forall2 (fun l r => length l = length r) ls rs ->
+    gather (super_of_tensor_order (map (@length nat) ls)) (tensor_of_supers_labels ls rs)
+    = concat ls ++ concat rs.
+Proof. exact super_of_tensor_groups. Qed.
+Print Assumptions C09_reshuffle_groups_row_and_column_indices.
+
+Example C09_nonvacuous_reshuffle_groups :
+  (* cnot-like factor over [2;2] (rows 10 11, columns 20 21) and a
+     one-subsystem factor (row 12, column 22) *)
+  Forall2 (fun l r : list nat => length l = length r) [[10; 11]; [12]] [[20; 21]; [22]] /\
+  tensor_of_supers_labels [[10; 11]; [12]] [[20; 21]; [22]] = [10; 11; 20; 21; 12; 22] /\
+  super_of_tensor_order [2; 1] = [0; 1; 4; 2; 3; 5].
+Proof. repeat split; repeat constructor. Qed.
